@@ -423,7 +423,8 @@ def run(prog: Program, L: Ledger) -> None:
     L.floor("criteria classes with a real evaluate()", len(crits), 5)
     deltas = [1, -1] if L.tier == "quick" else [1, -1, 2, -2, 3, -3]
     for ci in crits:
-        f = flat(prog, prog.lookup_method(ci, "evaluate"), ci)
+        # public / static helpers of the criteria classes (an `acceptance_probability(x)`, a `potential_energy_difference(ctx)`) are seen through
+        f = flat(prog, prog.lookup_method(ci, "evaluate"), ci, keep=("evaluate", "to_dict", "from_dict"), public_methods=True)
         analyse(prog, L, ci, f, deltas)
     # default criteria used by drivers are covered
     check_properties(prog, L)
